@@ -668,6 +668,27 @@ fn gen_case(seed: u64, idx: u64) -> Case {
             }
             return Case { decoder, mutation: format!("hid-unfinished-on-{n}-channels(declared {declared})"), input, aux: cuts };
         }
+        22 if choice % 7 == 2 => {
+            // one initialisation packet declaring a long payload, then hundreds of in-order continuation
+            // packets on the same channel whose sequence byte runs 0..127 again and again
+            let n = *rng.pick(&[130usize, 260, 300, 600, 1200]);
+            let declared: u16 = *rng.pick(&[0xffffu16, 16_000, 30_000, 7609]);
+            let ch = (rng.next_u64() as u32).to_be_bytes();
+            let mut input = Vec::with_capacity((n + 1) * 64);
+            let mut cuts = Vec::with_capacity(n + 1);
+            input.extend_from_slice(&ch);
+            input.push(0x80 | 0x10);
+            input.extend_from_slice(&declared.to_be_bytes());
+            input.extend(rng.bytes(57));
+            cuts.push(input.len());
+            for i in 0..n {
+                input.extend_from_slice(&ch);
+                input.push((i & 0x7f) as u8);
+                input.extend(rng.bytes(59));
+                cuts.push(input.len());
+            }
+            return Case { decoder, mutation: format!("hid-{n}-continuations-with-wrapping-sequence(declared {declared})"), input, aux: cuts };
+        }
         22 => {
             // split into packets of arbitrary lengths 0..200, optionally reorder
             let mut cuts = Vec::new();
